@@ -38,15 +38,21 @@ func (po *PO) allEvents() []*POEvent {
 	return out
 }
 
-func one() *smt.Term  { return smt.IntC(1) }
+// Clocks are bit-vectors (pure QF_BV bit-blasts to SAT, which is much faster here than the
+// BV+LIA combination); ClockW bits bound the number of executed events.
+// (measured: bit-vector clocks make the UNSAT safety query of the C05 harness time out at
+// 300 s where Int clocks — difference logic — need 80 s; Int clocks are kept)
 func zeroI() *smt.Term { return smt.IntC(0) }
+
+func cLt(a, b *smt.Term) *smt.Term { return smt.ILt(a, b) }
+func cLe(a, b *smt.Term) *smt.Term { return smt.ILe(a, b) }
 
 // base constraints: control, program order, enabling, reads-from, coherence.
 func (po *PO) baseConstraints() []*smt.Term {
 	var as []*smt.Term
 	for _, t := range po.Threads {
 		for _, e := range t.Events {
-			as = append(as, smt.Implies(e.X, smt.ILt(zeroI(), e.C)))
+			as = append(as, smt.Implies(e.X, cLt(zeroI(), e.C)))
 			if e.Kind == "root" {
 				if len(e.Edges) == 0 {
 					if !t.Final {
@@ -56,7 +62,7 @@ func (po *PO) baseConstraints() []*smt.Term {
 				}
 				var alts []*smt.Term
 				for _, ed := range e.Edges {
-					alts = append(alts, smt.And(ed.From.X, ed.Cond, smt.ILt(ed.From.C, e.C)))
+					alts = append(alts, smt.And(ed.From.X, ed.Cond, cLt(ed.From.C, e.C)))
 				}
 				as = append(as, smt.Implies(e.X, smt.Or(alts...)))
 				continue
@@ -67,11 +73,14 @@ func (po *PO) baseConstraints() []*smt.Term {
 					alts = append(alts, ed.Cond)
 					continue
 				}
-				alts = append(alts, smt.And(ed.From.X, ed.Cond, smt.ILt(ed.From.C, e.C)))
+				alts = append(alts, smt.And(ed.From.X, ed.Cond, cLt(ed.From.C, e.C)))
 			}
 			as = append(as, smt.Implies(e.X, smt.Or(alts...)))
 			if e.Enable != nil {
 				as = append(as, smt.Implies(e.X, e.Enable))
+			}
+			if e.Inv != nil {
+				as = append(as, smt.Implies(e.X, e.Inv))
 			}
 		}
 	}
@@ -80,7 +89,7 @@ func (po *PO) baseConstraints() []*smt.Term {
 		for ri, rd := range l.Reads {
 			e, a := rd.Ev, rd.A
 			k := smt.Var(fmt.Sprintf("k!%s!%d", sanitize(l.Key), ri), smt.Int)
-			as = append(as, smt.Implies(e.X, smt.And(smt.ILe(zeroI(), k), smt.ILt(k, e.C))))
+			as = append(as, smt.Implies(e.X, smt.And(cLe(zeroI(), k), cLt(k, e.C))))
 			alts := []*smt.Term{smt.And(smt.Eq(k, zeroI()), smt.Eq(a.RV, l.Init))}
 			for _, wr := range l.Writes {
 				w, b := wr.Ev, wr.A
@@ -88,7 +97,7 @@ func (po *PO) baseConstraints() []*smt.Term {
 					continue
 				}
 				wrote := smt.And(w.X, b.WG)
-				as = append(as, smt.Implies(smt.And(e.X, wrote, smt.ILt(w.C, e.C)), smt.ILe(w.C, k)))
+				as = append(as, smt.Implies(smt.And(e.X, wrote, cLt(w.C, e.C)), cLe(w.C, k)))
 				alts = append(alts, smt.And(wrote, smt.Eq(w.C, k), smt.Eq(a.RV, b.WV)))
 			}
 			as = append(as, smt.Implies(e.X, smt.Or(alts...)))
@@ -130,10 +139,33 @@ func (po *PO) quiescenceConstraints() []*smt.Term {
 				continue
 			}
 			wrote := smt.And(wr.Ev.X, wr.A.WG)
-			as = append(as, smt.Implies(wrote, smt.ILe(wr.Ev.C, kf)))
+			as = append(as, smt.Implies(wrote, cLe(wr.Ev.C, kf)))
 			alts = append(alts, smt.And(wrote, smt.Eq(wr.Ev.C, kf), smt.Eq(f, wr.A.WV)))
 		}
-		as = append(as, smt.ILe(zeroI(), kf), smt.Or(alts...))
+		as = append(as, cLe(zeroI(), kf), smt.Or(alts...))
+	}
+	// exhaustiveness: an executed event continues along one of its outgoing edges (branch
+	// conditions are exhaustive; harness assumptions must hold in a maximal execution)
+	out := map[*POEvent][]*smt.Term{}
+	for _, t := range po.Threads {
+		for _, e := range t.Events {
+			for _, ed := range e.Edges {
+				if ed.From != nil && ed.From.T == t {
+					out[ed.From] = append(out[ed.From], ed.PCond)
+				}
+			}
+		}
+	}
+	for _, t := range po.Threads {
+		if t.Final {
+			continue
+		}
+		for _, e := range t.Events {
+			if e.Kind == "end" || e.Kind == "cut" || e.Kind == "unknown" || e.Kind == "end-panic-ok" || (e.Kind == "assert" && e.Label == "panic") {
+				continue
+			}
+			as = append(as, smt.Implies(e.X, smt.Or(out[e]...)))
+		}
 	}
 	var finals []*POThread
 	for _, t := range po.Threads {
@@ -192,7 +224,7 @@ func (po *PO) quiescenceConstraints() []*smt.Term {
 				continue
 			}
 			for _, e := range t.Events {
-				as = append(as, smt.Implies(e.X, smt.ILt(e.C, ft.Root.C)))
+				as = append(as, smt.Implies(e.X, cLt(e.C, ft.Root.C)))
 			}
 		}
 	}
